@@ -46,7 +46,7 @@ def cases(tier, seed):
     out = []
     cfgs = [dict(p=1), dict(p=2), dict(p=1, q=1), dict(p=3), dict(p=2, r=1), dict(p=3, r=1), dict(p=4), dict(name='2DPGA'), dict(name='3DPGA'),
             dict(p=2, start_index=0), dict(p=3, start_index=4)]
-    for _ in range(6 if tier == 'quick' else 40):
+    for _ in range(6 if tier == 'quick' else 200):
         d = rng.choice((2, 3, 3, 4))
         pqr = rng.choice(pat.pqr_all(d))
         cfgs.append(dict(p=pqr[0], q=pqr[1], r=pqr[2], basis=pat.random_basis(pqr, rng)))
@@ -54,7 +54,7 @@ def cases(tier, seed):
         cfgs += [dict(p=4, q=1), dict(name='STAP')]
     for cfg in cfgs:
         d = {'2DPGA': 3, '3DPGA': 4, 'STAP': 5}.get(cfg.get('name')) or sum(v for k, v in cfg.items() if k in 'pqr')
-        subsets = pat.SUB(d, order=list(range(2 ** d))) if d <= 2 else [tuple(p) for p in pat.RND(d, 14 if tier == 'quick' else 60, rng, max_len=6, min_len=1, order=list(range(2 ** d)))]
+        subsets = pat.SUB(d, order=list(range(2 ** d))) if d <= 2 else [tuple(p) for p in pat.RND(d, 14 if tier == 'quick' else 120, rng, max_len=6, min_len=1, order=list(range(2 ** d)))]
         subsets = [s for s in subsets if s]
         for form in FORMS:
             if form == 'dense':
@@ -64,7 +64,7 @@ def cases(tier, seed):
                 for gs in [g for n in (1, 2) for g in itertools.combinations(range(d + 1), n)][:10]:
                     out.append(dict(kind='construct', cfg=cfg, form=form, grades=list(gs), keys=[], sseed=rng.randrange(10 ** 6)))
                 continue
-            for ks in (subsets if d <= 2 else rng.sample(subsets, min(len(subsets), 5))):
+            for ks in (subsets if d <= 2 else rng.sample(subsets, min(len(subsets), 5 if tier == 'quick' else 25))):
                 ks = list(ks)
                 rng.shuffle(ks)
                 out.append(dict(kind='construct', cfg=cfg, form=form, keys=ks, sseed=rng.randrange(10 ** 6)))
